@@ -395,7 +395,7 @@ def scenarios(tier="quick"):
     add("send+tick:testrequest", active(last_time=T0 - 30000), [("send", T0, APP("a")), ("tick", T0)], toggles=2)
     add("send+tick:silence-disconnect", active(state=12, max_resend=9, last_time=T0 - 61000),
         [("send", T0, APP("a")), ("tick", T0)])
-    add("send+tick:testreq-timeout", active(test_req_id=T0 // 1000 - 61), [("send", T0, APP("a")), ("tick", T0)])
+    add("send+tick:testreq-timeout", active(test_req_id=T0 // 1000 - 61, last_time=T0 - 61000), [("send", T0, APP("a")), ("tick", T0)])
     add("send+tick:idle", active(), [("send", T0, APP("a")), ("tick", T0)])
     # ---- sender + reader, one inbound frame of each class
     acc = fresh_net(2)
